@@ -201,6 +201,42 @@ def t_open(E, existing_mode, new_mode, number=2):
     E.prove(not r2.raised, 'can be opened again once closed')
 
 
+class _Device(object):
+    _pyvc_trusted = True
+    def __init__(self):
+        self.opened = []
+    def open(self, number, *a):
+        self.opened.append(number)
+        return 'new file'
+
+
+class _FieldMem(object):
+    _pyvc_trusted = True
+    fields = {1: None, 2: None, 3: None}
+
+
+def t_files_open(E, in_use):
+    """Files.open: a file number that is in use is refused before the device (and with it the lock
+    registry of that number) is touched; a free number is opened on the device and registered."""
+    from pcbasic.basic.devices import files as files_mod
+    f = object.__new__(files_mod.Files)
+    f.max_files = 3
+    f.files = {1: 'held file'} if in_use else {}
+    f._memory = _FieldMem()
+    dev = _Device()
+    if E.mode == 'symbolic':
+        E.interp.contracts[files_mod.Files._get_device_param] = lambda I, args, kw: (dev, b'DATA.DAT')
+    else:
+        f._get_device_param = lambda d, m: (dev, b'DATA.DAT')
+    r = E.call(f.open, 1, b'data.dat', b'D', b'R')
+    if in_use:
+        E.prove(r.is_error(BASICError, error.FILE_ALREADY_OPEN), 'a file number in use: File already open')
+        E.prove(dev.opened == [], 'refused before the device is asked to open anything (the locks held through that number stay)')
+        E.prove(f.files == {1: 'held file'}, 'the table of open files is unchanged')
+    else:
+        E.prove(not r.raised and dev.opened == [1] and f.files.get(1) == 'new file', 'a free number is opened on the device and registered')
+
+
 _MODES = [b'I', b'O', b'A', b'R']
 
 TASKS = [
@@ -210,6 +246,7 @@ TASKS = [
          cases=[{'shape': s, 'whole': w} for s in _SHAPES for w in (False, True)]),
     Task('Locks.try_record_access', t_access, covers=('denied', 'granted'),
          cases=[{'shape': s, 'access': a} for s in _SHAPES for a in (b'R', b'W', b'RW')]),
+    Task('Files.open (file number in use)', t_files_open, cases=[{'in_use': u} for u in (True, False)]),
     Task('Locks.open_file', t_open,
          cases=[{'existing_mode': e, 'new_mode': n, 'number': k} for e in [None] + _MODES for n in _MODES for k in (2, 0)]),
 ]
